@@ -34,6 +34,7 @@ SYM_STR = ["a", "b", "cd", "x1"]
 SYM_TOKEN = ["a", "b", "ab", "x_1", "é", "7"]     # regex-safe tokens (C06)
 
 
+VARNAMES = ["S", "A", "B", "C", "a#CNF#", "s", "np"]      # states named like the variables of a grammar operand
 HASHCLASH = [-1, -2, 0, 2 ** 61 - 1, 1, 2 ** 61]      # CPython: hash(-1) == hash(-2), hash(0) == hash(2**61 - 1)
 
 
@@ -56,6 +57,8 @@ def state_value(vc, i, perm=None):
         return K("s%d" % i, h)
     if vc == "hashclash":
         return HASHCLASH[i] if i < len(HASHCLASH) else i
+    if vc == "varnames":
+        return VARNAMES[i] if i < len(VARNAMES) else "V%d" % i
     raise ValueError(vc)
 
 
